@@ -173,6 +173,7 @@ struct ResponseHandler {
     cert: HashMap<Tag, Vec<u8>>,
     dele: HashMap<Tag, Vec<u8>>,
     nonce: Nonce,
+    request: Vec<u8>,
     version: Version,
 }
 
@@ -188,6 +189,7 @@ impl ResponseHandler {
         pub_key: Option<Vec<u8>>,
         response: RtMessage,
         nonce: Nonce,
+        request: Vec<u8>,
     ) -> ResponseHandler {
         let msg = response.into_hash_map();
         let srep = RtMessage::from_bytes(&msg[&Tag::SREP])
@@ -207,6 +209,7 @@ impl ResponseHandler {
             cert,
             dele,
             nonce,
+            request,
             version,
         }
     }
@@ -275,8 +278,14 @@ impl ResponseHandler {
             .unwrap();
         let paths = &self.msg[&Tag::PATH];
 
+        // The Merkle leaf is the nonce for classic requests and the entire request packet for IETF
+        let leaf: &[u8] = match self.version {
+            Version::Google => &self.nonce,
+            Version::RfcDraft13 => &self.request,
+        };
+
         let hash = MerkleTree::new(self.version)
-            .root_from_paths(index as usize, &self.nonce, paths);
+            .root_from_paths(index as usize, leaf, paths);
 
         assert_eq!(
             hash,
@@ -463,7 +472,7 @@ fn main() {
         socket.send_to(request, addr).unwrap();
     }
 
-    for (nonce, _, socket) in requests {
+    for (nonce, request, socket) in requests {
         let duration = time::Duration::from_secs(timeout_secs);
         socket
             .set_read_timeout(Some(duration))
@@ -495,7 +504,7 @@ fn main() {
             verified,
             midpoint,
             radius,
-        } = ResponseHandler::new(version, pub_key.clone(), resp.clone(), nonce.clone())
+        } = ResponseHandler::new(version, pub_key.clone(), resp.clone(), nonce.clone(), request)
             .extract_time();
 
         let map = resp.into_hash_map();
